@@ -55,7 +55,6 @@ def run(ctx):
                      lambda r: f"trace of program {r['events'][0].get('program')!r} rejected at event "
                                f"{r['at']}: {json.dumps(r['unmatched'])}")
     ctx.assumptions += [
-        "\\global\\chardef is rejected by texlang (scope filter): \\chardef is exercised unprefixed and under \\globaldefs",
         "assigning 'undefined' (\\let\\a=\\undefinedcs) is a no-op in texlang and is not generated",
         "reads use \\the, macro expansion and \\fontname\\font; the harness's undefined-command handler reports <UNDEF:name>",
     ]
